@@ -4,6 +4,8 @@ import json, os, sys, time, hashlib
 ROOT = os.path.dirname(os.path.dirname(os.path.abspath(__file__)))
 REPO = os.environ.get('VERIF_REPO', '/repo')
 KF_FILE = os.path.join(ROOT, 'known_findings.json')
+# where evidence and replay files go: /verif unless a scratch run (tools/seeded.py --scratch) redirects them
+OUT_ROOT = os.environ.get('PYRATES_VERIF_OUT') or ROOT
 
 
 def load_known():
@@ -32,7 +34,7 @@ class Ctx:
         self.exhaustive = False
         self.skipped = []
         self.known = [k for k in load_known() if k['property'] == pid]
-        self.replay_dir = os.path.join(ROOT, 'out', 'replays', pid)
+        self.replay_dir = os.path.join(OUT_ROOT, 'out', 'replays', pid)
         import shutil
         shutil.rmtree(self.replay_dir, ignore_errors=True)
 
@@ -88,7 +90,7 @@ class Ctx:
     # ---- finish ----
     def finish(self):
         wall = time.time() - self.t0
-        os.makedirs(os.path.join(ROOT, 'evidence'), exist_ok=True)
+        os.makedirs(os.path.join(OUT_ROOT, 'evidence'), exist_ok=True)
         lines = []
         for fid, e in sorted(self.known_hits.items()):
             k = next(k for k in self.known if k['id'] == fid)
@@ -115,7 +117,7 @@ class Ctx:
         cov.update(self.notes)
         ev = dict(property_id=self.pid, tier=self.tier, seed=self.seed, level='model_checking', coverage=cov,
                   assumptions=self.assumptions, wall_s=round(wall, 2), violations=len(self.violations))
-        with open(os.path.join(ROOT, 'evidence', f'{self.pid}.json'), 'w') as f:
+        with open(os.path.join(OUT_ROOT, 'evidence', f'{self.pid}.json'), 'w') as f:
             json.dump(ev, f, indent=1, default=str)
         for l in lines:
             print(l)
